@@ -109,6 +109,10 @@ def palette(size, tier="quick"):
         Placement(q=(1, 1, 1, 1), t=(-3 * d, 2 * d, 5 * d), name="rot120"),
         Placement(s=F(1, 1000), q=(2, 1, 0, 0), t=(F(1, 250), F(-3, 500), F(1, 125)), name="milli_rot5"),
         Placement(s=1000, q=(0, 0, 1, 0), t=(0, 0, 0), name="kilo_flip"),
+        # a plane / an edge leaning one milliradian from the coordinate planes: "already aligned" shortcuts must be exact tests
+        Placement(q=(2000, 1, 0, 0), t=(F(1, 3), -d, 2 * d), name="tilt_1e-3_rad"),
+        # micrometre-sized copy a few diameters from the origin: absolute tolerances (1e-5 .. 1e-8) must not matter
+        Placement(s=F(1, 10 ** 6), q=(1, 2, 2, 0), t=(F(3 * d, 10 ** 6), F(-2 * d, 10 ** 6), F(d, 10 ** 6)), name="micro_rot9_offset"),
     ]
     if tier == "thorough":
         P += [
